@@ -20,8 +20,11 @@ EXTENDS Naturals, Sequences, FiniteSets, TLC, SequencesExt, Names, Values, Quirk
 KVHas(kvs, key) == \E i \in DOMAIN kvs : kvs[i].k = key
 KVGet(kvs, key) == kvs[CHOOSE i \in DOMAIN kvs : kvs[i].k = key].v
 
-MsgNames(d) == {d.msgs[i].name : i \in DOMAIN d.msgs}
-MsgNamed(d, n) == d.msgs[CHOOSE i \in DOMAIN d.msgs : d.msgs[i].name = n]
+\* messages a field may refer to: those of the file to generate and those of the other files of its package
+\* (dependency files marked `share`)
+AllMsgs(d) == d.msgs \o FlattenSeq([i \in DOMAIN d.deps |-> IF d.deps[i].share THEN d.deps[i].msgs ELSE <<>>])
+MsgNames(d) == {AllMsgs(d)[i].name : i \in DOMAIN AllMsgs(d)}
+MsgNamed(d, n) == AllMsgs(d)[CHOOSE i \in DOMAIN AllMsgs(d) : AllMsgs(d)[i].name = n]
 
 \* ---- field classification (field_descriptor_proto_ext.go)
 IsTime(f) == f.std = "time" \/ f.ty = "timestamp" \/ f.cast = "time.Time"
@@ -81,7 +84,11 @@ PlanMods(cfg, tn, path, computed) ==
   ELSE IF cfg.usfu /\ computed THEN <<"USFU">> ELSE <<>>
 
 CustomTypeOf(cfg, f, path) == IF KVHas(cfg.customtypes, path) THEN KVGet(cfg.customtypes, path) ELSE f.custom
-SuffixOf(cfg, ct) == IF KVHas(cfg.suffixes, ct) THEN KVGet(cfg.suffixes, ct) ELSE ct
+\* default suffix: the type name without dots and slashes (qualified names of the pool are tabulated: TLC has no
+\* character-level string operations)
+StrippedNames == [x \in {"ext/wrappers.Traits", "wrappers.Traits"} |-> IF x = "ext/wrappers.Traits" THEN "extwrappersTraits" ELSE "wrappersTraits"]
+SuffixOf(cfg, ct) == IF KVHas(cfg.suffixes, ct) THEN KVGet(cfg.suffixes, ct)
+                     ELSE IF ct \in DOMAIN StrippedNames THEN StrippedNames[ct] ELSE ct
 
 \* ---- the built field / message records (uniform)
 NoMsg == <<>>
